@@ -9,9 +9,9 @@ import vlib  # noqa: E402
 
 
 def families():
-    import fam_ring, fam_inbox
+    import fam_ring, fam_inbox, fam_actor
     table = {}
-    for mod in (fam_ring, fam_inbox):
+    for mod in (fam_ring, fam_inbox, fam_actor):
         table.update(mod.CHECKS)
     return table
 
